@@ -24,6 +24,10 @@ def literal_value(value: Any) -> str:
         return str(value) if math.isfinite(value) else f'float("{value}")'
 
     if isinstance(value, QName):
-        return f'QName("{value.text}")'
+        text = value.text
+        if '"' in text or "\\" in text or not text.isprintable():
+            return f"QName({text!r})"
+
+        return f'QName("{text}")'
 
     return repr(value)
